@@ -231,6 +231,7 @@ MUTANTS = [
     ('C11', 'revert-client-fatal-send', ('revert', 'd14a029'), 'C11.a'),
     ('C11', 'revert-file-eof-discard', ('revert', '47ec135'), 'C11.d'),
     ('C11', 'revert-starttls-drain', ('revert', 'cb57a86'), 'C11.c'),
+    ('C12', 'revert-connectless-disconnect', ('revert', 'c71db07'), 'C12.a'),
 ]
 
 # behaviour-preserving edits: the check of the property must stay silent
